@@ -37,6 +37,8 @@ def obligations(tier):
            bounds="forall widths 0..22, 3 blank characters, 3 adapters", harness="harness/h_adapters.py", func="ascii_blank_ok", timeout=to),
         Ob("C20.hdr", "X", "blank header fields (-1 / '') produce no attribute at all; non-blank ones their value", ["ceos_alos2.sar_image.metadata:extract_attrs"],
            bounds="forall field values >= -1", harness="harness/h_adapters.py", func="header_attrs_ok", timeout=to),
+        Ob("C20.complex", "E", "complex fields: each half blank or filled independently - a blank half is NaN, the other half keeps its value, never an exception",
+           ["ceos_alos2.datatypes:AsciiComplex._decode"], bounds="concrete enumeration of 8 x 8 half contents incl. blank, through the real construct parser", call="props.c04:ob_complex"),
         Ob("C20.rm", "X", "remove_spares removes exactly the keys spare<digits> / blanks<digits>, at every nesting level, and nothing else",
            ["ceos_alos2.transformers:remove_spares"], bounds="9 prefixes x 12 x 12 representative continuations (digit-range boundaries, letters, blank), symbolic indices",
            outside="keys starting with 'spareblanks' (both prefixes are stripped in a row; no field is named like that)", harness="harness/h_adapters.py",
@@ -226,20 +228,26 @@ def ob_e2e(tier):
                 bad.append({"family": "image." + level, "what": "tree changes when spare areas are overwritten", "first": [x for x in zip(a, b) if x[0] != x[1]][:2]})
         except Exception as e:  # noqa: BLE001
             bad.append({"family": "image." + level, "what": f"garbage in spare areas raised {type(e).__name__}: {str(e)[:150]}"})
-    # blank nullable fields: a leader whose numeric/text fields are all blank (structure-driving fields, codes and date-times kept)
-    runs += 1
-    try:
+    # blank nullable fields: leaders whose numeric/text fields are blank - all of them, every even one, every odd one (neighbouring
+    # fields, e.g. the two halves of a complex number, then differ) - structure-driving fields, codes and date-times kept
+    for pattern in ("all", "even", "odd"):
+      runs += 1
+      try:
         raw, expected = W.write("sar_leader")
         blank = bytearray(raw)
         params = W.PARAMS["sar_leader"]
         driving = set(spec["sar_leader"]["params"])
         keep_names = set(W.TEXTS) | set(W.SMALL)
         blanked = []
+        idx = 0
         for pth, off, w, kind in W.expand(spec["sar_leader"], params):
             names = [k[0] for k in kind]
             if w <= 0 or ".".join(pth) in driving or pth[-1] in keep_names or "Enum" in names or names[-1] in ("fmt", "Bytes"):
                 continue
             if pth[0] == "file_descriptor" or pth[1:2] == ("preamble",) or "preamble" in pth:
+                continue
+            idx += 1
+            if (pattern == "even" and idx % 2) or (pattern == "odd" and not idx % 2):
                 continue
             blank[off:off + w] = b" " * w
             blanked.append((pth, names[-1]))
@@ -247,18 +255,21 @@ def ob_e2e(tier):
 
         doc = parse_data(bytes(blank))
         wrong = []
+        counts = {}
+        for pth, off, w, kind in W.expand(spec["sar_leader"], params):
+            counts[pth] = counts.get(pth, 0) + 1
         for pth, last in blanked:
+            if counts.get(pth, 0) != 1:
+                continue  # a struct that uses one name twice (`blanks`) keeps only the last occurrence after parsing
             v = W.lookup(doc, pth)
             okv = (v == -1) if last == "AsciiInteger" else ((v != v) if last == "AsciiFloat" else (v == ""))
-            if isinstance(v, complex):
-                okv = v != v
             if not okv:
                 wrong.append({"field": ".".join(pth), "value": repr(v)})
         if wrong:
-            bad.append({"family": "leader", "what": "blank field did not surface as -1 / NaN / ''", "first": wrong[:3]})
-        _probe_tree("leader", bytes(blank))  # and the transformers accept the all-blank document
-    except Exception as e:  # noqa: BLE001
-        bad.append({"family": "leader", "what": f"all-blank leader raised {type(e).__name__}: {str(e)[:150]}"})
+            bad.append({"family": "leader", "what": f"blank field did not surface as -1 / NaN / '' (pattern {pattern})", "first": wrong[:3]})
+        _probe_tree("leader", bytes(blank))  # and the transformers accept the blanked document
+      except Exception as e:  # noqa: BLE001
+        bad.append({"family": "leader", "what": f"leader with blank fields (pattern {pattern}) raised {type(e).__name__}: {str(e)[:150]}"})
     res = {"verdict": "violated" if bad else "discharged", "queries": runs, "replays": runs}
     if bad:
         res["cex"] = bad[:4]
